@@ -190,6 +190,10 @@ class Poly(object):
 def _astr(a):
     if isinstance(a, str):
         return a
+    if a[0] == "inv3x3":
+        return "inv{%03d}[%d,%d]" % (abs(hash(a[3])) % 1000, a[1], a[2])
+    if a[0] == "inv3x3_status":
+        return "invstatus{%03d}" % (abs(hash(a[1])) % 1000)
     return "%s(%s)" % (a[0], ",".join(_cstr(x) for x in a[1:]))
 
 
